@@ -3,7 +3,10 @@
 (keeps the verdict of the first version of the checks under 'initial_verdict')."""
 import json, os, subprocess, sys, time
 VERIF = os.path.dirname(os.path.dirname(os.path.abspath(__file__)))
-INITIAL_MISSED = {"C01-m1", "C03-m2", "C04-m1", "C05-m1", "C08-m1", "C09-m1", "C16-m2", "C18-m2", "C20-m1", "C20-m2"}
+INITIAL_MISSED = {"C01-m1", "C03-m2", "C04-m1", "C05-m1", "C08-m1", "C09-m1", "C16-m2", "C18-m2", "C20-m1", "C20-m2",
+                  # second round (verdict of the checks as they were when that round's changes arrived)
+                  "C02-r2m2", "C03-r2m1", "C04-r2m1", "C04-r2m2", "C05-r2m2", "C11-r2m1", "C11-r2m2", "C12-r2m2",
+                  "C16-r2m2", "C18-r2m2", "C20-r2m1"}
 only = set(sys.argv[1:])
 for name in sorted(os.listdir(os.path.join(VERIF, "seeded"))):
     d = os.path.join(VERIF, "seeded", name)
@@ -16,8 +19,8 @@ for name in sorted(os.listdir(os.path.join(VERIF, "seeded"))):
     p = subprocess.run([os.path.join(VERIF, "tools/mutant.py"), "check", prop, os.path.join(d, "patch.diff"), "--tier", "quick"],
                        stdout=subprocess.PIPE, stderr=subprocess.STDOUT, text=True)
     verdict = {0: "MISSED", 1: "CAUGHT", 2: "INCONCLUSIVE"}.get(p.returncode, str(p.returncode))
-    meta["initial_verdict"] = ("MISSED by the first version of the check (commit 4c4c69a); the check was strengthened afterwards"
-                               if name in INITIAL_MISSED else "CAUGHT by the first version of the check")
+    meta["initial_verdict"] = ("MISSED by the version of the check that existed when this change arrived; the check was strengthened afterwards"
+                               if name in INITIAL_MISSED else "CAUGHT by the version of the check that existed when this change arrived")
     if name == "C20-m1":
         meta["initial_verdict"] = "caught only intermittently by the first version of the check (schedule dependent); strengthened afterwards"
     meta["check_results"] = {"quick": {"rc": p.returncode, "verdict": verdict, "wall_s": round(time.time() - t0, 1),
